@@ -182,12 +182,10 @@ class Ctx:
         m = re.search(r"Error: Invariant (\S+) is violated", txt)
         if m:
             res["violated"] = m.group(1)
-        m2 = re.search(r"Error: Action property (\S+) is violated", txt)
+        m2 = re.search(r"Error: Action property (\S+) is violated|Temporal properties were violated", txt)
         if m2 and not res["violated"]:
-            res["violated"] = m2.group(1)
-        m3 = re.search(r"Temporal propert(?:y|ies) (.*?)\s*(?:was|were) violated", txt)
-        if m3 and not res["violated"]:
-            res["violated"] = (m3.group(1).strip() or "temporal")
+            res["violated"] = m2.group(1) or "temporal"
+        # (named forms "Temporal property X was violated" are left to the checks, which look at res["text"])
         if "Deadlock reached" in txt and not res["violated"]:
             res["violated"] = "deadlock"
         res["ok"] = (rc == 0 and "No error has been found" in txt) or (simulate is not None and rc in (0,) and not res["violated"] and "Error:" not in txt)
